@@ -37,7 +37,11 @@ type RenderOpts struct {
 	n          int
 }
 
-var wsChoices = []string{"", "", "", "", "", " ", " ", "\n", "\t", "\r", "  ", " \n\t\r "}
+var wsChoices = []string{"", "", "", "", "", " ", " ", "\n", "\t", "\r", "  ", " \n\t\r ",
+	"", "", "", "", "", " ", " ", "\n", "\t", "\r", "  ", " \n\t\r ",
+	"", "", "", "", "", " ", " ", "\n", "\t", "\r", "  ", " \n\t\r ",
+	// pretty-printers and padding: long runs of insignificant whitespace
+	strings.Repeat(" ", 57), strings.Repeat(" \t", 40), strings.Repeat("\n", 1100), strings.Repeat("\r\n    ", 700)}
 
 func (o *RenderOpts) ws(sb *strings.Builder) {
 	if !o.Whitespace || o.T == nil {
